@@ -108,6 +108,49 @@ def _register_buildable_defaults_aware_traversers(cls: Type[Buildable]):
   )
 
 
+def _same_sharing_structure(x: Any, y: Any) -> bool:
+  """Returns whether `x` and `y` (already known to be equal) share nodes alike.
+
+  Walks both structures in lockstep, pairing children by path element (so dict
+  insertion order is irrelevant and path elements never need to be ordered),
+  and checks that "is the same object" relates the values reached in `x`
+  exactly as it relates the values reached under the same paths in `y`.
+  Internable values (constants and tuples of constants) may be shared by the
+  interpreter at will, so their identity is not part of the structure.
+  """
+  registry = _defaults_aware_traverser_registry
+  x_to_y = {}
+  y_to_x = {}
+  keep_alive = []
+
+  def visit(a, b) -> bool:
+    if daglish.is_internable(a) or daglish.is_internable(b):
+      return True
+    if id(a) in x_to_y or id(b) in y_to_x:
+      return x_to_y.get(id(a)) == id(b) and y_to_x.get(id(b)) == id(a)
+    x_to_y[id(a)] = id(b)
+    y_to_x[id(b)] = id(a)
+    keep_alive.append((a, b))
+    traverser_a = registry.find_node_traverser(type(a))
+    traverser_b = registry.find_node_traverser(type(b))
+    if traverser_a is None or traverser_b is None:
+      return traverser_a is None and traverser_b is None
+    children_a = dict(
+        zip(traverser_a.path_elements(a), traverser_a.flatten(a)[0])
+    )
+    children_b = dict(
+        zip(traverser_b.path_elements(b), traverser_b.flatten(b)[0])
+    )
+    if children_a.keys() != children_b.keys():
+      return False
+    return all(
+        visit(child, children_b[path_element])
+        for path_element, child in children_a.items()
+    )
+
+  return visit(x, y)
+
+
 def _compare_buildable(x: Buildable, y: Buildable, check_dag: bool = False):
   """Compare if two Buildables are equal, including DAG structure."""
   assert isinstance(x, Buildable)
@@ -143,35 +186,10 @@ def _compare_buildable(x: Buildable, y: Buildable, check_dag: bool = False):
     if v1 != v2:
       return False
 
-  # Compare the DAG structure.
-  # The DAG stracture comparison must traverse the whole DAG and sort the
-  # result by path, which is expensive. Thus, we compare values first so
-  # that most unequal cases will not reach the expensive DAG compare step.
-  if check_dag:
-    x_elements = list(
-        daglish.iterate(
-            x,
-            memoized=True,
-            # Not to memorize internables during traversal, as they might
-            # be equal in value but have different object ids.
-            memoize_internables=False,
-            registry=_defaults_aware_traverser_registry,
-        )
-    )
-    y_elements = list(
-        daglish.iterate(
-            y,
-            memoized=True,
-            memoize_internables=False,
-            registry=_defaults_aware_traverser_registry,
-        )
-    )
-    # Compare the paths as multisets: sorting them would require path elements
-    # (e.g. dict keys of different types) to be mutually orderable.
-    x_paths = collections.Counter(elt[1] for elt in x_elements)
-    y_paths = collections.Counter(elt[1] for elt in y_elements)
-    if x_paths != y_paths:
-      return False
+  # Compare the DAG structure: the two (value-equal) configurations must alias
+  # their nodes alike.
+  if check_dag and not _same_sharing_structure(x, y):
+    return False
 
   return True
 
